@@ -6,6 +6,43 @@ import os
 VERIF = os.path.dirname(os.path.dirname(os.path.abspath(__file__)))
 
 CHECKS = {
+    "C04": {
+        "text": "13 fail-family contexts (executing and non-executing positions) and two error programs under all 8 subsets of {fail, collect, stop} x "
+        "every file of <=3 (thorough 4) records over 5 row kinds, compared with the run machine in models/refinterp.py on the final verdict, "
+        "valid() at the start and failed() at the end of every line, and monotonicity; plus every ordered group of 1-2 (3) members from 5 "
+        "member kinds x files incl. the empty file x six run methods: results_manager.is_valid, run manifest all_valid and member manifests "
+        "valid against the conjunction of the members' verdicts.",
+        "design": "3 / C04",
+        "note": "trusted: models/refinterp.py; for erroring lines only the verdict seen by later lines and the final verdict are asserted",
+        "technique": "bounded exhaustive enumeration of programs x files x policies and of groups x run methods on the real code against a reference interpreter",
+    },
+    "C15": {
+        "text": "Every outer comment of <=3 (thorough 4) chunks over 9 chunk kinds (free text, fields with punctuation, stand-alone colons, id/name "
+        "fields) in 3 placements: all generated fields must be in metadata (reference rule in models/refmeta.py), identity precedence must "
+        "hold and the run must equal the run without the comment; and for 10 programs x 12 (40) files all 32 joint settings of the five "
+        "modes with the pairwise relations of the statement (complement, no-run, no-default, partition).",
+        "design": "3 / C15",
+        "note": "trusted: models/refmeta.py (from docs/comments.md); relations need no expected values; not asserted: values containing 'word:'",
+        "technique": "bounded exhaustive enumeration of comments and of all 32 mode vectors on the real code with relational oracles",
+    },
+    "C17": {
+        "text": "Every function name the factory knows x arity 0..3 x 5 qualifier sets, every component kind, boolean nests to depth 3 (thorough 4) and "
+        "1..3-component programs; every layout with <=1/2 deviating gaps (no space where tokens cannot merge, newline, tab, inner "
+        "comment between components): no _ambig node in the raw Lark tree, structural dump of the component tree equals the generated "
+        "AST for every layout, outer comment changes nothing, run results identical across layouts.",
+        "design": "3 / C17",
+        "note": "trusted: the generator's AST and the structural dumper; arity validity not asserted",
+        "technique": "bounded exhaustive enumeration of ASTs x deviation-bounded layouts on the real parser and transformer against the generated AST",
+    },
+    "C20": {
+        "text": "Every chain of 2..3 (thorough 4) filters from a 6-filter alphabet with source-mode preceding on every suffix x files x two spooling "
+        "methods against a composition model (member i == standalone p_i on member i-1's lines; manifests name the actual input); "
+        "every history of 1..3 (4) runs of a two-member group over three files x three methods with a probe csvpath reading "
+        "$g.variables.v[.key] and $h.headers.name; results references used as file names replay the referenced data.csv.",
+        "design": "3 / C20",
+        "note": "trusted: the composition model (standalone runs on files written from the model's lines); not asserted: a predecessor that collected nothing",
+        "technique": "bounded exhaustive enumeration of chains and run histories on the real CsvPaths against a composition model",
+    },
     "C06": {
         "text": "Three exhaustively enumerated families with csv.writer's input as ground truth: every single-record file of 0..3 cells over a "
         "17-cell hostile alphabet (incl. backslashes) under 8 dialects; every 2-record (thorough 3) file incl. blank records under 8 dialects (an "
